@@ -939,6 +939,7 @@ func (g *Gen) checkBackEdge(li *loopInfo, from *ssa.BasicBlock) {
 		senv.resolve = env.resolve
 		senv.heap = g.heap
 		senv.pre = g.endHeapAtHeader(li)
+		senv.preResolve = g.loopEnv(li, nil).resolve // before(x) of a local: its value at the start of the iteration
 		for i, c := range li.spec.Steps {
 			goal := g.evalBool(c.Expr, senv)
 			g.oblig("step", fmt.Sprintf("%s.%s", tag, clauseName(c, i)), goal, c.Src, token.NoPos, true)
